@@ -52,7 +52,7 @@ def tla_func(fd: dict) -> dict:
 def history(rng: random.Random, k: int) -> dict:
     td = copy.deepcopy(c02.random_desc(rng, rng.randint(2, 5)))
     for f in td["funcs"]:                       # views do not depend on these; keep the records uniform
-        for extra in ("retnone", "outperm", "outrenamed", "renamed"):
+        for extra in ("retnone", "outperm", "outrenamed", "renamed", "picker"):
             f.pop(extra, None)
     funcs = {f["name"]: tla_func(f) for f in td["funcs"]}
     build.LOG.clear()
